@@ -90,6 +90,29 @@ func newSession(r *hx.Run, rng *gen.Rng, id string, w, h int, rgb, su, ew, sync,
 		}
 		emu.VerifTakeReplies()
 	}
+	// every 16th session: the emulator is already shown by a host Vaxis that can report its background
+	// (OSC 11), so the child's OSC 11 query is answered (reply writers with a host attached)
+	attach := sessions%16 == 0
+	var host *vaxis.Vaxis
+	var hfc *fakeconsole.Console
+	if attach {
+		hfc = fakeconsole.New(w, h, fakeconsole.FromMask(1<<6|1<<7|1<<10))
+		var herr error
+		host, herr = vaxis.New(vaxis.Options{WithConsole: hfc, NoSignals: true})
+		if herr != nil {
+			return nil, herr
+		}
+		emu.Draw(host.Window())
+		// from now on the host terminal answers the background query with this session's colour
+		cr, cg, cb := rng.Intn(256), rng.Intn(256), rng.Intn(256)
+		hfc.Respond = func(c *fakeconsole.Console, p []byte) []byte {
+			if bytes.Contains(p, []byte("\x1b]11;?")) {
+				return []byte(fmt.Sprintf("\x1b]11;rgb:%02x%02x/%02x%02x/%02x%02x\x1b\\", cr, cr, cg, cg, cb, cb))
+			}
+			return nil
+		}
+		r.Count("session-host-attached")
+	}
 	fc := fakeconsole.New(w, h, fakeconsole.Caps{})
 	// every sequence Vaxis writes during start-up, with the reply the emulator gave to it
 	var startup [][2]string
@@ -123,10 +146,12 @@ func newSession(r *hx.Run, rng *gen.Rng, id string, w, h int, rgb, su, ew, sync,
 	}
 	fc.Take()
 	recording = false
-	hfc := fakeconsole.New(w, h, fakeconsole.FromMask(1<<6|1<<7)) // host: RGB + styled underlines, size from the console
-	host, err := vaxis.New(vaxis.Options{WithConsole: hfc, NoSignals: true})
-	if err != nil {
-		return nil, err
+	if !attach {
+		hfc = fakeconsole.New(w, h, fakeconsole.FromMask(1<<6|1<<7)) // host: RGB + styled underlines, size from the console
+		host, err = vaxis.New(vaxis.Options{WithConsole: hfc, NoSignals: true})
+		if err != nil {
+			return nil, err
+		}
 	}
 	s := &session{emu: emu, host: host, hfc: hfc, r: r, rng: rng, fc: fc, vx: vx, cells: map[vaxis.Cell]int{}, w: w, h: h, ew: false}
 	r.Case(id)
@@ -144,7 +169,16 @@ func newSession(r *hx.Run, rng *gen.Rng, id string, w, h int, rgb, su, ew, sync,
 	// then the capabilities Vaxis derived (model of handleSequence/New on the modelled replies vs real)
 	// (the exchange does not depend on the history that follows: every 8th session records it)
 	if sessions%8 == 0 {
-		r.Emit(fmt.Sprintf("emuqstart %d %d", w, h), "-")
+		if attach {
+			bg := host.QueryBackground().Params()
+			if len(bg) == 3 {
+				r.Emit(fmt.Sprintf("emuqstart %d %d %d %d %d", w, h, bg[0], bg[1], bg[2]), "-")
+			} else {
+				r.Emit(fmt.Sprintf("emuqstart %d %d -", w, h), "-")
+			}
+		} else {
+			r.Emit(fmt.Sprintf("emuqstart %d %d", w, h), "-")
+		}
 		for _, q := range startup {
 			r.Emit("emuquery "+q[0], q[1])
 		}
@@ -209,6 +243,7 @@ func (s *session) hostDraw() string {
 }
 
 func (s *session) close() {
+	s.hfc.Respond = nil // back to the scripted responder (it takes part in the shutdown hand-shake)
 	s.vx.Close()
 	s.host.Close()
 	s.emu.VerifClose()
